@@ -82,6 +82,9 @@ func main() {
 		c07.Run(os.Args[2], os.Args[3])
 	case "c08":
 		c08.Run(os.Args[2], os.Args[3])
+	case "c08stress":
+		n, _ := strconv.Atoi(os.Args[3])
+		c08.Stress(os.Args[2], n)
 	case "c04":
 		c04.Run(os.Args[2], os.Args[3])
 	case "c13":
